@@ -34,6 +34,10 @@ def main(tier):
             results[x["obs"]["result"]] = results.get(x["obs"]["result"], 0) + 1
         run.extra["results"] = results
         run.extra["with_silent_endpoint"] = sum(1 for x in lines if any(b["udp"] == "silent" or b["tcp"] == "silent" for b in x["beh"]))
+        run.extra["second_exchange_of_its_client"] = {k: sum(1 for x in lines if x.get("prelude") == k) for k in sorted({x.get("prelude") or "" for x in lines}) if k}
+        run.extra["closes_early_made_concrete_as"] = {k: sum(1 for x in lines for b in x["beh"] if b.get("closeAt") == k) for k in sorted({b.get("closeAt") or "" for x in lines for b in x["beh"]}) if k}
+        if not bad and not run.extra["second_exchange_of_its_client"]:
+            raise vlib.Inconclusive("vacuous: no case ran as the second exchange of its client")
         if not bad and (results.get("answer", 0) == 0 or results.get("fail", 0) == 0):
             raise vlib.Inconclusive("vacuous: results seen %s" % results)
         run.cov["distinct_nontrivial"] = len({json.dumps([x["beh"], x["limit"]]) for x in lines if any(b["udp"] != "answers" or b["tcp"] != "answers" for b in x["beh"])})
@@ -41,7 +45,9 @@ def main(tier):
                            "answers/refuses/closes early/silent/KRB-ERROR/answers in two segments), assignments equal up to a permutation of the KDCs "
                            "collapsed, x {tcp only, udp first, tcp first}: N = 1,2 and N = 3 over the behaviours {answers, refuses, closes early} (thorough: N = 3 over all behaviours); enumerated by TLC. Cases without a silent endpoint are "
                            "all run; cases with silent endpoints (5 s timeouts) all for N = 1 and a seeded sample otherwise. distinct = assignments "
-                           "with at least one faulty endpoint")
+                           "with at least one faulty endpoint. A TCP endpoint that closes early does so at a seeded point (at accept, after reading the request, "
+                           "inside the length prefix, after it, inside the body of a correct answer); a seeded third of the cases without silent endpoint is the second "
+                           "exchange of its client, after one against the same endpoints behaving otherwise (response-too-big then TCP, KRB-ERROR everywhere, answers everywhere)")
         for x in (lines[0], lines[len(lines) // 2], lines[-1]):
             run.sample({k: v for k, v in x.items() if k != "seq"})
         for i in bad:
